@@ -50,8 +50,16 @@ pub fn mul_redc<const N: usize>(a: [u64; N], b: [u64; N], modulus: [u64; N], inv
         let (value, next_carry) = carrying_add(carry_1, carry_2, carry);
         result[N - 1] = value;
         if modulus[N - 1] >= 0x7fff_ffff_ffff_ffff {
+            #[cfg(feature = "recmo_uint_verif")]
+            crate::verif_hooks::hit(110);
             carry = next_carry;
+            #[cfg(feature = "recmo_uint_verif")]
+            if next_carry {
+                crate::verif_hooks::hit(111);
+            }
         } else {
+            #[cfg(feature = "recmo_uint_verif")]
+            crate::verif_hooks::hit(115);
             debug_assert!(!next_carry);
         }
     }
@@ -84,6 +92,10 @@ pub fn square_redc<const N: usize>(a: [u64; N], modulus: [u64; N], inv: u64) -> 
             result[j] = value;
             carry_lo = next_carry_lo;
             carry_hi = next_carry_hi;
+            #[cfg(feature = "recmo_uint_verif")]
+            if carry_hi {
+                crate::verif_hooks::hit(119);
+            }
         }
 
         // Add m times modulus to result and shift one limb
@@ -106,8 +118,16 @@ pub fn square_redc<const N: usize>(a: [u64; N], modulus: [u64; N], inv: u64) -> 
 
             // Note carry_outer can be {0, 1, 2}.
             carry_outer = (wide >> 64) as u64;
+            #[cfg(feature = "recmo_uint_verif")]
+            crate::verif_hooks::hit(116);
+            #[cfg(feature = "recmo_uint_verif")]
+            if carry_outer > 0 {
+                crate::verif_hooks::hit(117);
+            }
             debug_assert!(carry_outer <= 2);
         } else {
+            #[cfg(feature = "recmo_uint_verif")]
+            crate::verif_hooks::hit(118);
             // `carry_outer` and `carry_hi` are always zero.
             debug_assert!(!carry_hi);
             debug_assert_eq!(carry_outer, 0);
@@ -127,6 +147,14 @@ pub fn square_redc<const N: usize>(a: [u64; N], modulus: [u64; N], inv: u64) -> 
 #[allow(clippy::needless_bitwise_bool)]
 fn reduce1_carry<const N: usize>(value: [u64; N], modulus: [u64; N], carry: bool) -> [u64; N] {
     let (reduced, borrow) = sub(value, modulus);
+    #[cfg(feature = "recmo_uint_verif")]
+    crate::verif_hooks::hit(if carry {
+        112
+    } else if !borrow {
+        113
+    } else {
+        114
+    });
     // TODO: Ideally this turns into a cmov, which makes the whole mul_redc constant
     // time.
     if carry | !borrow {
